@@ -1,6 +1,7 @@
 package server
 
 import (
+	"encoding/base64"
 	"encoding/json"
 
 	"github.com/sasha-s/go-deadlock"
@@ -9,3 +10,7 @@ import (
 func jsonUnmarshalS(b []byte, v interface{}) error { return json.Unmarshal(b, v) }
 
 func init() { deadlock.Opts.Disable = true }
+
+func b64(b []byte) string { return base64Std(b) }
+
+func base64Std(b []byte) string { return base64.StdEncoding.EncodeToString(b) }
